@@ -18,8 +18,7 @@ import (
 type oracleInv struct {
 	checkRounds, checkAdmission bool
 
-	feeders  map[uint64]sim.FeederCfg // feeder id -> configuration (token id == feeder id here)
-	startRnd uint64
+	feeders  map[uint64]sim.FeederInfo // feeder id -> configuration
 	maxNonce int
 	maxDet   int
 	maxSize  uint64
@@ -33,21 +32,21 @@ type oracleInv struct {
 	nonce  map[string]map[uint64]int // deliver state: validator -> feeder -> admitted this round
 	cnonce map[string]map[uint64]int // check state
 
-	snap    sim.Snapshot
-	mem     string
+	snap       sim.Snapshot
+	mem        string
 	memNoNonce string
 	// statistics
 	byConsensus, byCarry, rejected, admittedOnly, counted int
-	classesInHistory                                        map[string]bool
-	unequalPowers                                           bool
+	classesInHistory                                      map[string]bool
+	unequalPowers                                         bool
 }
 
 type roundModel struct {
 	based, roundID uint64
-	open           bool // accepting submissions
-	seen           map[string]map[string]bool      // validator -> source rounds it has reported
-	dets           map[string]map[string]*big.Int  // source round -> value -> agreeing power
-	order          []string                         // source rounds in first-seen order
+	open           bool                           // accepting submissions
+	seen           map[string]map[string]bool     // validator -> source rounds it has reported
+	dets           map[string]map[string]*big.Int // source round -> value -> agreeing power
+	order          []string                       // source rounds in first-seen order
 	reporters      map[string]bool
 	confirmed      bool // a source round has reached agreement (calculator stops then)
 	confirmedPrice string
@@ -63,16 +62,15 @@ func newRound(based, id uint64) *roundModel {
 }
 
 func (o *oracleInv) Init(m *Machine) error {
-	o.feeders = map[uint64]sim.FeederCfg{}
-	for _, f := range m.W.Cfg.Feeders {
-		o.feeders[uint64(f.Asset+1)] = f
+	o.feeders = map[uint64]sim.FeederInfo{}
+	for _, f := range m.W.Feeders {
+		o.feeders[f.ID] = f
 	}
-	o.startRnd = 2
 	p := m.C.App.OracleKeeper.GetParams(m.C.Ctx())
 	o.maxNonce, o.maxDet, o.maxSize = int(p.MaxNonce), int(p.MaxDetId), uint64(p.MaxSizePrices)
 	o.tokenDec = map[uint64]int32{}
-	for i, a := range m.W.Cfg.Assets {
-		o.tokenDec[uint64(i+1)] = a.PriceDecimal
+	for _, f := range m.W.Feeders {
+		o.tokenDec[f.ID] = m.W.Cfg.Assets[f.Token-1].PriceDecimal
 	}
 	o.rounds = map[uint64]*roundModel{}
 	o.stored = map[uint64]*tokenModel{}
@@ -156,7 +154,7 @@ func (o *oracleInv) blockEnd(m *Machine) error {
 		outOfWindow := h-r.based >= uint64(o.maxNonce)
 		if expired || outOfWindow || force {
 			// the round closes by carrying the previous price forward
-			o.carryForward(fid)
+			o.carryForward(f.Token)
 			r.open = false
 			o.byCarry++
 			o.clearNonces(fid)
@@ -173,7 +171,7 @@ func (o *oracleInv) blockEnd(m *Machine) error {
 		}
 		delta := h - f.StartBaseBlock
 		if delta%f.Interval == 0 {
-			o.rounds[fid] = newRound(h, o.startRnd+delta/f.Interval)
+			o.rounds[fid] = newRound(h, f.StartRoundID+delta/f.Interval)
 			for v := range o.powers {
 				if o.nonce[v] == nil {
 					o.nonce[v] = map[uint64]int{}
@@ -407,7 +405,7 @@ func (o *oracleInv) price(m *Machine, a *Action, out Outcome) error {
 		// the round closes now with the agreed price
 		// (the statement: the round closes with that price; round ids advance by one per interval,
 		// so the stored next round id must be this round's id)
-		t := o.stored[fid]
+		t := o.stored[o.feeders[fid].Token]
 		t.prices[r.roundID] = r.confirmedPrice
 		t.next = r.roundID + 1
 		o.prune(t)
@@ -418,7 +416,9 @@ func (o *oracleInv) price(m *Machine, a *Action, out Outcome) error {
 	return o.compareStored(m)
 }
 
-func (o *oracleInv) NonTrivialRounds() bool { return o.byConsensus >= 1 && o.byCarry >= 1 && o.unequalPowers }
+func (o *oracleInv) NonTrivialRounds() bool {
+	return o.byConsensus >= 1 && o.byCarry >= 1 && o.unequalPowers
+}
 func (o *oracleInv) NonTrivialAdmission() bool {
 	return o.classesInHistory["rejected"] && o.classesInHistory["admitted-only"] && o.classesInHistory["counted"]
 }
@@ -431,7 +431,7 @@ func sortedU64(m map[uint64]*roundModel) []uint64 {
 	sort.Slice(out, func(i, j int) bool { return out[i] < out[j] })
 	return out
 }
-func sortedU64f(m map[uint64]sim.FeederCfg) []uint64 {
+func sortedU64f(m map[uint64]sim.FeederInfo) []uint64 {
 	out := make([]uint64, 0, len(m))
 	for k := range m {
 		out = append(out, k)
